@@ -15,6 +15,7 @@ TRUSTED = ["Coq 8.16.1 kernel; no axioms", "extraction + vmodel; Harness/Glue.v 
            "modelled, not verified: the Rust source (src/core/git.rs, file.rs, tracking.rs)"]
 RULE = ("generated histories (write/modify/delete/mv/git mv/add/add -A/rm --cached/commit, checkpoint update with and without --id/--pending) over a name pool "
         "with odd characters; after each operation analyze --changes with no range / --begin / --begin --end / --end; non-trivial = >=2 reported paths and a pending map "
-        "or a range in play; distinct by operation trail")
+        "or a range in play; one history in five adds 260-410 files with mostly multi-byte names (untracked, then committed: each git list is tens of kilobytes long); revisions named by a tag "
+        "that is also a root file, a root file named HEAD; the reported list must be strictly sorted (each path once); distinct by operation trail")
 def run(ctx, scale): gitscen.run(ctx, scale, "C02")
 def replay(ctx, case): return gitscen.replay(ctx, case, "C02")
